@@ -185,6 +185,8 @@ class Engine:
     def coerce(self, st, val, kind):
         """Value -> z3 term of the slot kind; raises EngineError when statically impossible."""
         if kind == "any":
+            if isinstance(val, STuple):
+                return PyVal.RefV(self.box_tuple(st, val).t)
             return to_dyn(val)
         if kind == "int" and isinstance(val, SInt):
             return val.t
@@ -269,6 +271,17 @@ class Engine:
         r = st.new_ref()
         lv = SRef(r, "list:" + elemkind)
         self.list_set_all(st, lv, len_t, elems_t)
+        return lv
+
+    def box_tuple(self, st, tup):
+        """a tuple stored in a dynamic slot / list becomes an immutable heap object of class tuple"""
+        r = st.new_ref()
+        st.heap.set(("cls",), z3.Store(st.heap.get(("cls",)), r, z3.IntVal(self.class_ids["tuple"])))
+        arr = z3.K(z3.IntSort(), PyVal.NoneV)
+        for i, it in enumerate(tup.items):
+            arr = z3.Store(arr, i, self.coerce(st, it, "any"))
+        lv = SRef(r, "list:any")
+        self.list_set_all(st, lv, z3.IntVal(len(tup.items)), arr)
         return lv
 
     # objects -----------------------------------------------------------------------------------
@@ -447,10 +460,54 @@ class Engine:
             return a.t == b.t
         if isinstance(a, SClass) and isinstance(b, SClass):
             return z3.BoolVal(a.name == b.name)
+        if isinstance(a, SFunc) and isinstance(b, SFunc) and a.what == "objdict" and b.what == "objdict":
+            return self.objdict_equal(st, a.payload, b.payload)
         kinds = (type(a), type(b))
         if SStr in kinds and (SRef in kinds or STuple in kinds):
             return z3.BoolVal(False)
         raise EngineError(f"== between {a!r} and {b!r}")
+
+    def attr_values_equal(self, st, kind, ta, tb):
+        """`==` between two attribute values of the same declared kind"""
+        if kind in ("str", "int", "bool"):
+            return ta == tb
+        if kind == "any":
+            return bm.dyn_equal(self, st, SDyn(ta), SDyn(tb))
+        if kind.startswith("optref:"):
+            inner = kind[7:]
+            return z3.If(z3.Or(ta == 0, tb == 0), ta == tb, self.attr_values_equal(st, inner, ta, tb))
+        if kind.startswith("list:"):
+            la, lb = SRef(ta, kind), SRef(tb, kind)
+            n1, n2 = self.list_len(st, la), self.list_len(st, lb)
+            i = z3.Int("i!leq")
+            ek = kind[5:]
+            el = self.attr_values_equal(st, ek, z3.Select(self.list_elems(st, la), i), z3.Select(self.list_elems(st, lb), i))
+            return z3.And(n1 == n2, z3.ForAll([i], z3.Implies(z3.And(0 <= i, i < n1), el)))
+        return bm.U["obj_eq"](ta, tb)
+
+    def objdict_equal(self, st, a, b):
+        """a.__dict__ == b.__dict__ : same attribute names, pairwise == values (CPython dict equality over the
+        instance attributes the schema lists for the object's class)"""
+        ca, cb = a.kind[4:], b.kind[4:]
+        cases = []
+        for c in self.concrete_subclasses(ca):
+            if not self.is_subclass(c, cb) and c not in self.concrete_subclasses(cb):
+                continue
+            attrs = []
+            chain = self.repo.mro(c) if c in self.repo.classes else [c]
+            seen = set()
+            for cc in chain:
+                for attr, ak in self.schema.get(cc, {}).items():
+                    if attr in seen or attr.startswith("g_"):
+                        continue
+                    seen.add(attr)
+                    key = ("attr", cc, attr, ak)
+                    arr = st.heap.get(key)
+                    attrs.append(self.attr_values_equal(st, ak, z3.Select(arr, a.t), z3.Select(arr, b.t)))
+            same_c = z3.And(self.cls_term(st, a.t) == self.class_ids[c], self.cls_term(st, b.t) == self.class_ids[c])
+            cases.append(z3.And(same_c, *attrs))
+        diff = self.cls_term(st, a.t) != self.cls_term(st, b.t)
+        return z3.Or(cases + [z3.And(diff, fresh("dict_eq_other_class", z3.BoolSort()))])
 
     # ------------------------------------------------------------------ expression evaluation
     def ev(self, e, st, fr, k):
@@ -561,6 +618,17 @@ class Engine:
         return groups
 
     def get_attr(self, o, attr, st, fr, k):
+        if attr == "__class__" and isinstance(o, (SRef, SOptRef, SDyn)):
+            return k(st, SFunc("typeof", o))
+        if attr == "__dict__" and isinstance(o, SRef) and o.kind.startswith("ref:"):
+            return k(st, SFunc("objdict", o))
+        if attr == "__dict__" and isinstance(o, SDyn):
+            # reached only after the isinstance tests of __eq__ established that `o` is an object of the same class
+            if st.spec:
+                raise EngineError("__dict__ of a dynamic value in a specification: cast with as_ref first")
+            return self.branch(st, PyVal.is_RefV(o.t),
+                               lambda s: k(s, SFunc("objdict", SRef(PyVal.rval(o.t), "ref:" + (fr.cls.name if fr.cls else "Block")))),
+                               lambda s: self.raise_new(s, "AttributeError"), "dyn.__dict__")
         if isinstance(o, SRef) and o.kind.startswith("ref:"):
             cname = o.kind[4:]
             groups = self.resolution_groups(cname, attr)
